@@ -799,6 +799,45 @@ pub fn run(tier: &str, seed: u64, s: &mut Sink) {
         }
     }
 
+    // ---- A2. deterministic sweep over 8 full wraps: in every window, edges at every offset -3..=3 around both of
+    //          its markers, at the two extreme displacements and mid-window; all in one stream per variant
+    for variant in 0..2u64 {
+        let markers = 17 + variant;
+        let mut evs = Vec::new();
+        let mut n = 0u64;
+        for k in 0..=markers {
+            let lo = (k * HALF) as i64;
+            let hi = ((k + 1) * HALF) as i64;
+            let mut ts: Vec<i64> = Vec::new();
+            for d in -3..=3 {
+                ts.push(lo + d);
+                ts.push(hi + d);
+            }
+            ts.push(lo - HALF as i64);
+            ts.push(hi + HALF as i64 - 1);
+            ts.push(lo + (HALF / 2) as i64);
+            if variant == 1 {
+                ts.reverse();
+                evs.push(Hw::Scalers(k as u8));
+            }
+            for t in ts {
+                if t >= 0 {
+                    n += 1;
+                    evs.push(Hw::Edge { t: t as u64, ch: (n % 59) as u8, trailing: n % 3 == 0 });
+                }
+            }
+            if k < markers {
+                evs.push(Hw::Marker(k));
+            }
+        }
+        let boards: HwBoards = vec![(1 + 2 * variant as u8, evs)];
+        let seeds = [cutseed(&mut r), cutseed(&mut r)];
+        for &cs in &seeds {
+            emit_hw(s, "hw-boundary-sweep", cs, &boards);
+        }
+        emit_cut_rel(s, &seeds, &boards);
+    }
+
     // ---- B. single faults on hardware streams (one board)
     let n_fault = if thorough { 600 } else { 56 };
     for i in 0..n_fault {
